@@ -8,6 +8,8 @@ Driver commands of property C19 (core Lean only).  Command names start with "c19
   c19.readfrom <hex>                      Model readFrom (records sorted by name)
   c19.pos <rec> <p,p,...>                 Model Record.Position
   c19.reads <hex> <rec> <sizes> <ranges>  Model seqWhole/seqRange + Read calls (sizes used cyclically)
+  c19.readsE <hex> <rec> <sizes> <ranges> the same over a ReaderAt that reports io.EOF with a complete read ending at
+                                          the end of the file (readCallsE with eager = true everywhere)
 
 <file> = `lead/records`: lead = blank lines before the first record (`n` or hex contents separated by '.'),
          records separated by ';', each `name,desc|n,bases,width,L|C,0|1,blank.blank...|n` (hex fields);
@@ -73,9 +75,10 @@ def idxErrStr : IdxErr → String
 def cycle (sizes : List Nat) (limit : Nat) : List Nat :=
   (List.range limit).map fun i => sizes.getD (i % sizes.length) 1
 
-def readStr (file : Bytes) (s : Seq) (sizes : List Nat) : String :=
+def readStr (eager : Bool) (file : Bytes) (s : Seq) (sizes : List Nat) : String :=
   let limit := (s.stop - s.start) + 8
-  let rs := readCalls file s (cycle sizes limit)
+  let rs := if eager then readCallsE (fun _ _ => true) file s (cycle sizes limit)
+            else readCalls file s (cycle sizes limit)
   if rs.any (fun r => r.2 == .panicDiv) then "panic"
   else if rs.any (fun r => r.2 == .badLayout) then "bad"
   else match rs.getLast? with
@@ -89,10 +92,10 @@ where _unused : Unit := ()
 
 instance : BEq RdErr := ⟨fun a b => decide (a = b)⟩
 
-def oneRange (file : Bytes) (r : Record) (sizes : List Nat) (rg : String) : Option String :=
+def oneRange (eager : Bool) (file : Bytes) (r : Record) (sizes : List Nat) (rg : String) : Option String :=
   if rg == "w" then
     match seqWhole [r] r.name with
-    | .ok s => some (readStr file s sizes)
+    | .ok s => some (readStr eager file s sizes)
     | .error _ => some "err"
   else
     match rg.splitOn ":" with
@@ -100,7 +103,7 @@ def oneRange (file : Bytes) (r : Record) (sizes : List Nat) (rg : String) : Opti
       let s ← parseInt a
       let e ← parseInt b
       match seqRange [r] r.name s e with
-      | .ok sq => some (readStr file sq sizes)
+      | .ok sq => some (readStr eager file sq sizes)
       | .error _ => some "err"
     | _ => none
 
@@ -141,7 +144,13 @@ def handle (cmd : String) (args : List String) : Option String :=
     let file ← parseBytes h
     let rec ← parseRecord r
     let sizes ← (sz.splitOn ",").mapM parseNat
-    let outs ← (rgs.splitOn ",").mapM (oneRange file rec sizes)
+    let outs ← (rgs.splitOn ",").mapM (oneRange false file rec sizes)
+    some (";".intercalate outs)
+  | "c19.readsE", [h, r, sz, rgs] => do
+    let file ← parseBytes h
+    let rec ← parseRecord r
+    let sizes ← (sz.splitOn ",").mapM parseNat
+    let outs ← (rgs.splitOn ",").mapM (oneRange true file rec sizes)
     some (";".intercalate outs)
   | _, _ => none
 
